@@ -74,6 +74,8 @@ impl Report {
 pub struct Penalty {
     pub report: Report,
     pub t_ns: u64,
+    /// scheduler step at which the report was handed to the manager
+    pub step: u64,
     /// per destination: the instant the pair's worker was first free to process the report (it does not poll
     /// the issue channel while a lookup is outstanding and applies the full penalty at processing time)
     pub t_eff: Vec<Option<u64>>,
@@ -113,7 +115,7 @@ pub struct Hist<'a> {
     pub lagged_possible: bool,
     pub open: Vec<String>,
     pub known_hits: Vec<(String, String)>,
-    pub in_cache_since: BTreeMap<usize, u64>,
+    pub in_cache_since: BTreeMap<usize, (u64, u64)>,
     pub reports_during_lookup: usize,
 }
 
@@ -311,7 +313,7 @@ impl<'a> Hist<'a> {
             }
             drop(mgr);
         });
-        self.penalties.push(Penalty { report: rep, t_ns: self.sim.now_ns(), t_eff: vec![None; self.n_dst] });
+        self.penalties.push(Penalty { report: rep, t_ns: self.sim.now_ns(), step: self.sim.with(|s| s.steps), t_eff: vec![None; self.n_dst] });
         self.reports_since_worker_step += 1;
     }
 
